@@ -291,7 +291,7 @@ inductive Reply where
   | download (xfer fileSize : Nat)
   | upload (resume : Option Nat)
   | opaque                     -- reply not modelled here (folder download: C10)
-deriving Repr
+deriving Repr, DecidableEq
 
 def deleteScript (t : Path) : List (FSOp × Bool) :=
   let w := wrapper t
@@ -373,6 +373,29 @@ def move (root : Path) (fs : FS) (pf : Option Bytes) (name : Bytes) (newPf : Opt
             let r := runSeq fs (moveScript t d [w.name] w.name)
             if r.1 = .ok then (r.2, .ok) else (r.2, .none)
 
+/-- `SetComment` + `InfoForkWriter` + `io.Copy`: the information fork is rewritten with the new comment. -/
+def commentStep (fs : FS) (t : Path) (fork : InfoFork) : Option Bytes → Err × FS
+  | none => (.ok, fs)
+  | some c => runSeq fs [(.writeFile (wrapper t).info ({ fork with comment := c }).encode, false)]
+
+/-- The rename half of `HandleSetFileInfo`: a folder is renamed with `os.Rename`, a file with
+    `fileWrapper.Move` under its new (single-component) name. -/
+def renameStep (root : Path) (fs : FS) (pf : Option Bytes) (t : Path) (isDir : Bool) : Option Bytes → FS × Reply
+  | none => (fs, .ok)
+  | some nn =>
+    if isDir then
+      withTarget root fs pf nn fun t' =>
+        let r := runSeq fs [(.rename t t', false)]
+        if r.1 = Err.notExist then (r.2, .err) else (r.2, .ok)
+    else
+      withTarget root fs pf [] fun d =>
+        let cs := newNameComps nn
+        let r := runSeq fs (moveScript t d cs (baseName cs))
+        match r.1 with
+        | .ok => (r.2, .ok)
+        | .notExist => (r.2, .err)
+        | .other => (r.2, .none)
+
 def setInfo (root : Path) (fs : FS) (pf : Option Bytes) (name : Bytes) (comment newName : Option Bytes) : FS × Reply :=
   withTarget root fs pf name fun t =>
     if isRoot root t then (fs, .err)
@@ -383,26 +406,9 @@ def setInfo (root : Path) (fs : FS) (pf : Option Bytes) (name : Bytes) (comment 
         | .err => (fs, .none)
         | .panic => (fs, .panic)
         | .ok f =>
-          let w := wrapper t
-          let r1 : Err × FS := match comment with
-            | none => (.ok, fs)
-            | some c => runSeq fs [(.writeFile w.info ({ f.fork with comment := c }).encode, false)]
+          let r1 := commentStep fs t f.fork comment
           if r1.1 ≠ .ok then (r1.2, .none)
-          else match newName with
-            | none => (r1.2, .ok)
-            | some nn =>
-              if node.isDir then
-                withTarget root r1.2 pf nn fun t' =>
-                  let r := runSeq r1.2 [(.rename t t', false)]
-                  if r.1 = Err.notExist then (r.2, .err) else (r.2, .ok)
-              else
-                withTarget root r1.2 pf [] fun d =>
-                  let cs := newNameComps nn
-                  let r := runSeq r1.2 (moveScript t d cs (baseName cs))
-                  match r.1 with
-                  | .ok => (r.2, .ok)
-                  | .notExist => (r.2, .err)
-                  | .other => (r.2, .none)
+          else renameStep root r1.2 pf t node.isDir newName
 
 def alias (root : Path) (fs : FS) (pf : Option Bytes) (name : Bytes) (newPf : Option Bytes) : FS × Reply :=
   withTarget root fs pf name fun src =>
@@ -494,14 +500,15 @@ def uploadFilePaths (root : Path) (fs : FS) (pf : Option Bytes) (name : Bytes) :
 -- ---------------------------------------------------------------- folder upload (transfer connection)
 
 /-- `folderUpload.FormattedPath` segment loop: `count` items of `0,0,len,name`; an index or slice
-    out of range panics (recovered by `handleFileTransfer`). -/
+    out of range panics (recovered by `handleFileTransfer`).  `3+segLen` is `byte` arithmetic in Go:
+    a segment of 253..255 bytes wraps to an end index below 3 and panics as well. -/
 def fuSegments : Nat → Bytes → Res (List Bytes)
   | 0, _ => .ok []
   | n + 1, d =>
     if d.length < 3 then .panic
     else
       let l := ((d.drop 2).headD 0).toNat
-      if d.length < 3 + l then .panic
+      if 253 ≤ l ∨ d.length < 3 + l then .panic
       else match fuSegments n (d.drop (3 + l)) with
         | .ok ss => .ok ((d.drop 3).take l :: ss)
         | r => r
@@ -559,5 +566,1422 @@ def acctUpdate (fs : FS) (dir : Path) (old new : Bytes) (yaml : Bytes) : FS :=
     (runSeq r0.2 [(.writeFile tmp yaml, false), (.rename tmp p, false)]).2
 
 def acctDelete (fs : FS) (dir : Path) (login : Bytes) : FS := (FS.remove fs (acctFile1 dir login)).2
+
+-- ---------------------------------------------------------------- containment lemmas (C07)
+
+theorem under_append (root d x : Path) (h : root <+: d) : root <+: d ++ x :=
+  List.IsPrefix.trans h (List.prefix_append d x)
+
+theorem paths_subset_args (op : FSOp) : ∀ q ∈ op.paths, q ∈ op.args := by
+  cases op <;> simp [FSOp.paths, FSOp.args]
+
+/-- `fs'` agrees with `fs` on every path outside `root`, and if all symlinks of `fs` point inside
+    `root`, so do those of `fs'`. -/
+def Keeps (root : Path) (fs fs' : FS) : Prop :=
+  (∀ x, ¬ root <+: x → lookup fs' x = lookup fs x) ∧ (LinksInside root fs → LinksInside root fs')
+
+theorem Keeps.rfl' (root : Path) (fs : FS) : Keeps root fs fs := ⟨fun _ _ => rfl, id⟩
+
+theorem Keeps.trans {root : Path} {a b c : FS} (h1 : Keeps root a b) (h2 : Keeps root b c) : Keeps root a c :=
+  ⟨fun x hx => (h2.1 x hx).trans (h1.1 x hx), fun h => h2.2 (h1.2 h)⟩
+
+theorem runSeq_keeps (root : Path) (ops : List (FSOp × Bool)) (fs : FS)
+    (h : ∀ o ∈ ops, ∀ q ∈ o.1.args, root <+: q) : Keeps root fs (runSeq fs ops).2 :=
+  ⟨fun x hx => runSeq_outside root ops fs x (fun o ho q hq => h o ho q (paths_subset_args o.1 q hq)) hx,
+   fun hl => runSeq_linksInside root ops fs hl (fun o ho t p e => h o ho t (by rw [e]; simp [FSOp.args]))⟩
+
+theorem withTarget_keeps (root : Path) (fs : FS) (pf : Option Bytes) (name : Bytes) (k : Path → FS × Reply)
+    (h : ∀ t, target root pf name = .ok t → Keeps root fs (k t).1) : Keeps root fs (withTarget root fs pf name k).1 := by
+  unfold withTarget
+  cases ht : target root pf name with
+  | ok t => exact h t ht
+  | err => exact Keeps.rfl' root fs
+  | panic => exact Keeps.rfl' root fs
+
+theorem moveScript_args_under (root t d : Path) (nmData : List Comp) (nm : Comp)
+    (ht : root <+: t) (hne : t ≠ root) (hd : root <+: d) :
+    ∀ o ∈ moveScript t d nmData nm, ∀ q ∈ o.1.args, root <+: q := by
+  have hw := wrapperPaths_under root t ht hne
+  simp only [wrapperPaths, List.mem_cons, List.mem_nil_iff, or_false, forall_eq_or_imp, forall_eq] at hw
+  obtain ⟨h1, h2, h3, h4⟩ := hw
+  intro o ho q hq
+  simp only [moveScript, List.mem_cons, List.mem_nil_iff, or_false] at ho
+  rcases ho with rfl | rfl | rfl | rfl <;>
+    simp only [FSOp.args, FSOp.paths, List.mem_cons, List.mem_nil_iff, or_false] at hq <;>
+    rcases hq with rfl | rfl <;> first | assumption | exact under_append root d _ hd
+
+theorem deleteScript_args_under (root t : Path) (ht : root <+: t) (hne : t ≠ root) :
+    ∀ o ∈ deleteScript t, ∀ q ∈ o.1.args, root <+: q := by
+  have hw := wrapperPaths_under root t ht hne
+  simp only [wrapperPaths, List.mem_cons, List.mem_nil_iff, or_false, forall_eq_or_imp, forall_eq] at hw
+  obtain ⟨h1, h2, h3, h4⟩ := hw
+  intro o ho q hq
+  simp only [deleteScript, List.mem_cons, List.mem_nil_iff, or_false] at ho
+  rcases ho with rfl | rfl | rfl | rfl <;>
+    simp only [FSOp.args, FSOp.paths, List.mem_cons, List.mem_nil_iff, or_false] at hq <;>
+    subst hq <;> assumption
+
+theorem isRoot_false {root t : Path} (h : isRoot root t = false) : t ≠ root := by
+  simpa [isRoot] using h
+
+theorem withTarget_fs (root : Path) (fs : FS) (pf : Option Bytes) (name : Bytes) (k : Path → FS × Reply)
+    (h : ∀ t, (k t).1 = fs) : (withTarget root fs pf name k).1 = fs := by
+  unfold withTarget
+  split
+  · exact h _
+  · rfl
+  · rfl
+
+theorem getInfo_fs (root : Path) (fs : FS) (pf : Option Bytes) (name : Bytes) : (getInfo root fs pf name).1 = fs := by
+  unfold getInfo
+  apply withTarget_fs; intro t
+  repeat' split
+  all_goals rfl
+
+theorem download_fs (root : Path) (fs : FS) (pf : Option Bytes) (name : Bytes) : (download root fs pf name).1 = fs := by
+  unfold download
+  apply withTarget_fs; intro t
+  repeat' split
+  all_goals rfl
+
+theorem list_fs (root : Path) (ig : Bytes → Bool) (fs : FS) (pf : Option Bytes) : (list root ig fs pf).1 = fs := by
+  unfold list
+  apply withTarget_fs; intro t
+  repeat' split
+  all_goals rfl
+
+theorem uploadFile_fs (root : Path) (fs : FS) (pf : Option Bytes) (name : Bytes) (r : Bool) :
+    (uploadFile root fs pf name r).1 = fs := by
+  unfold uploadFile
+  apply withTarget_fs; intro t
+  repeat' split
+  all_goals rfl
+
+theorem newFolder_keeps (root : Path) (hr : RootOK root) (fs : FS) (pf : Option Bytes) (name : Bytes) :
+    Keeps root fs (newFolder root fs pf name).1 := by
+  unfold newFolder
+  apply withTarget_keeps
+  intro t ht
+  have hu := target_under root hr pf name t ht
+  have hk : Keeps root fs (runSeq fs [(FSOp.mkdir t, false)]).2 :=
+    runSeq_keeps root _ fs (by intro o ho q hq; simp at ho; subst ho; simp [FSOp.args, FSOp.paths] at hq; subst hq; exact hu)
+  split
+  · dsimp only
+    split <;> exact hk
+  · exact Keeps.rfl' root fs
+
+theorem delete_keeps (root : Path) (hr : RootOK root) (fs : FS) (pf : Option Bytes) (name : Bytes) :
+    Keeps root fs (delete root fs pf name).1 := by
+  unfold delete
+  apply withTarget_keeps
+  intro t ht
+  have hu := target_under root hr pf name t ht
+  by_cases hroot : isRoot root t = true
+  · rw [if_pos hroot]; exact Keeps.rfl' root fs
+  · rw [if_neg hroot]
+    have hne := isRoot_false (by simpa using hroot)
+    have hk := runSeq_keeps root (deleteScript t) fs (deleteScript_args_under root t hu hne)
+    split
+    · exact Keeps.rfl' root fs
+    · exact Keeps.rfl' root fs
+    · dsimp only
+      split
+      · exact Keeps.rfl' root fs
+      · split <;> exact hk
+
+theorem move_keeps (root : Path) (hr : RootOK root) (fs : FS) (pf : Option Bytes) (name : Bytes) (newPf : Option Bytes) :
+    Keeps root fs (move root fs pf name newPf).1 := by
+  unfold move
+  apply withTarget_keeps
+  intro t ht
+  apply withTarget_keeps
+  intro d hd
+  have hu := target_under root hr pf name t ht
+  have hdu := target_under root hr newPf [] d hd
+  by_cases hroot : isRoot root t = true
+  · rw [if_pos hroot]; exact Keeps.rfl' root fs
+  · rw [if_neg hroot]
+    have hne := isRoot_false (by simpa using hroot)
+    have hk := runSeq_keeps root (moveScript t d [(wrapper t).name] (wrapper t).name) fs
+      (moveScript_args_under root t d _ _ hu hne hdu)
+    split
+    · exact Keeps.rfl' root fs
+    · exact Keeps.rfl' root fs
+    · dsimp only
+      split
+      · exact Keeps.rfl' root fs
+      · split <;> exact hk
+
+theorem alias_keeps (root : Path) (hr : RootOK root) (fs : FS) (pf : Option Bytes) (name : Bytes) (newPf : Option Bytes) :
+    Keeps root fs (alias root fs pf name newPf).1 := by
+  unfold alias
+  apply withTarget_keeps
+  intro src hs
+  apply withTarget_keeps
+  intro dst hd
+  have h1 := target_under root hr pf name src hs
+  have h2 := target_under root hr newPf name dst hd
+  have hk : Keeps root fs (runSeq fs [(FSOp.symlink src dst, false)]).2 :=
+    runSeq_keeps root _ fs (by
+      intro o ho q hq; simp at ho; subst ho
+      simp [FSOp.args] at hq; rcases hq with rfl | rfl <;> assumption)
+  dsimp only
+  split <;> exact hk
+
+theorem commentStep_keeps (root : Path) (fs : FS) (t : Path) (fork : InfoFork) (c : Option Bytes)
+    (hinfo : root <+: (wrapper t).info) : Keeps root fs (commentStep fs t fork c).2 := by
+  cases c with
+  | none => exact Keeps.rfl' root fs
+  | some c =>
+    exact runSeq_keeps root _ fs (by
+      intro o ho q hq; simp at ho; subst ho
+      simp [FSOp.args, FSOp.paths] at hq; subst hq; exact hinfo)
+
+theorem renameStep_keeps (root : Path) (hr : RootOK root) (fs : FS) (pf : Option Bytes) (t : Path) (isDir : Bool)
+    (nn : Option Bytes) (hu : root <+: t) (hne : t ≠ root) : Keeps root fs (renameStep root fs pf t isDir nn).1 := by
+  cases nn with
+  | none => exact Keeps.rfl' root fs
+  | some nn =>
+    simp only [renameStep]
+    split
+    · apply withTarget_keeps
+      intro t' ht'
+      have hu' := target_under root hr pf nn t' ht'
+      have hk : Keeps root fs (runSeq fs [(FSOp.rename t t', false)]).2 :=
+        runSeq_keeps root _ _ (by
+          intro o ho q hq; simp at ho; subst ho
+          simp [FSOp.args, FSOp.paths] at hq; rcases hq with rfl | rfl <;> assumption)
+      split <;> exact hk
+    · apply withTarget_keeps
+      intro d hd
+      have hdu := target_under root hr pf [] d hd
+      have hk := runSeq_keeps root (moveScript t d (newNameComps nn) (baseName (newNameComps nn))) fs
+        (moveScript_args_under root t d _ _ hu hne hdu)
+      split <;> exact hk
+
+theorem setInfo_keeps (root : Path) (hr : RootOK root) (fs : FS) (pf : Option Bytes) (name : Bytes)
+    (comment newName : Option Bytes) : Keeps root fs (setInfo root fs pf name comment newName).1 := by
+  unfold setInfo
+  apply withTarget_keeps
+  intro t ht
+  have hu := target_under root hr pf name t ht
+  by_cases hroot : isRoot root t = true
+  · rw [if_pos hroot]; exact Keeps.rfl' root fs
+  · rw [if_neg hroot]
+    have hne := isRoot_false (by simpa using hroot)
+    have hw := wrapperPaths_under root t hu hne
+    simp only [wrapperPaths, List.mem_cons, List.mem_nil_iff, or_false, forall_eq_or_imp, forall_eq] at hw
+    obtain ⟨_, _, _, hinfo⟩ := hw
+    split
+    · exact Keeps.rfl' root fs
+    · split
+      · exact Keeps.rfl' root fs
+      · exact Keeps.rfl' root fs
+      · rename_i f _
+        have hk1 := commentStep_keeps root fs t f.fork comment hinfo
+        dsimp only
+        split
+        · exact hk1
+        · exact Keeps.trans hk1 (renameStep_keeps root hr _ pf t _ newName hu hne)
+
+/-- C07, frame for every modelled request: whatever the request's bytes, nothing outside the root changes. -/
+theorem handle_keeps (root : Path) (hr : RootOK root) (ig : Bytes → Bool) (fs : FS) (req : Req) :
+    Keeps root fs (handle root ig fs req).1 := by
+  cases req with
+  | getInfo pf n => simp only [handle, getInfo_fs]; exact Keeps.rfl' root fs
+  | setInfo pf n c nn => exact setInfo_keeps root hr fs pf n c nn
+  | delete pf n => exact delete_keeps root hr fs pf n
+  | move pf n np => exact move_keeps root hr fs pf n np
+  | newFolder pf n => exact newFolder_keeps root hr fs pf n
+  | alias pf n np => exact alias_keeps root hr fs pf n np
+  | list pf => simp only [handle, list_fs]; exact Keeps.rfl' root fs
+  | download pf n => simp only [handle, download_fs]; exact Keeps.rfl' root fs
+  | uploadFile pf n r => simp only [handle, uploadFile_fs]; exact Keeps.rfl' root fs
+  | downloadFolder pf n =>
+    simp only [handle]
+    apply withTarget_keeps; intro t _; exact Keeps.rfl' root fs
+
+-- ---------------------------------------------------------------- path arguments lie under the root
+
+theorem guardedWrapperPaths_under (root : Path) (hr : RootOK root) (pf : Option Bytes) (name : Bytes) :
+    ∀ q ∈ guardedWrapperPaths root pf name, root <+: q := by
+  unfold guardedWrapperPaths
+  cases ht : target root pf name with
+  | ok t =>
+    have hu := target_under root hr pf name t ht
+    dsimp only
+    by_cases hroot : isRoot root t = true
+    · rw [if_pos hroot]; intro q hq; simp at hq; subst hq; exact hu
+    · rw [if_neg hroot]
+      exact wrapperPaths_under root t hu (isRoot_false (by simpa using hroot))
+  | err => intro q hq; simp at hq
+  | panic => intro q hq; simp at hq
+
+theorem okPaths_under (root : Path) (hr : RootOK root) (pf : Option Bytes) (name : Bytes) :
+    ∀ q ∈ okPaths (target root pf name), root <+: q := by
+  unfold okPaths
+  cases ht : target root pf name with
+  | ok t => intro q hq; simp at hq; rw [hq]; exact target_under root hr pf name t ht
+  | err => intro q hq; simp at hq
+  | panic => intro q hq; simp at hq
+
+theorem movePart_under (root : Path) (hr : RootOK root) (pf pf2 : Option Bytes) (n n2 : Bytes) (nmData : Path → List Comp) (nm : Path → Comp) :
+    ∀ q ∈ (match target root pf n, target root pf2 n2 with
+       | Res.ok t, Res.ok d => d :: (if isRoot root t then [] else (moveScript t d (nmData t) (nm t)).flatMap (fun (o : FSOp × Bool) => o.1.args))
+       | _, _ => ([] : List Path)), root <+: q := by
+  cases ht : target root pf n with
+  | ok t =>
+    cases hd : target root pf2 n2 with
+    | ok d =>
+      have hu := target_under root hr pf n t ht
+      have hdu := target_under root hr pf2 n2 d hd
+      dsimp only
+      intro q hq
+      rcases List.mem_cons.mp hq with rfl | hq
+      · exact hdu
+      · by_cases hroot : isRoot root t = true
+        · rw [if_pos hroot] at hq; simp at hq
+        · rw [if_neg hroot] at hq
+          obtain ⟨o, ho, hqo⟩ := List.mem_flatMap.mp hq
+          exact moveScript_args_under root t d _ _ hu (isRoot_false (by simpa using hroot)) hdu o ho q hqo
+    | err => intro q hq; simp at hq
+    | panic => intro q hq; simp at hq
+  | err => intro q hq; simp at hq
+  | panic => intro q hq; simp at hq
+
+/-- Files.contained: every path argument of every modelled request lies under the root — for all
+    bytes in the path field, the name, the new name and the destination path. -/
+theorem Req.paths_under (root : Path) (hr : RootOK root) (req : Req) : ∀ q ∈ req.paths root, root <+: q := by
+  cases req with
+  | getInfo pf n => exact guardedWrapperPaths_under root hr pf n
+  | download pf n => exact guardedWrapperPaths_under root hr pf n
+  | delete pf n => exact guardedWrapperPaths_under root hr pf n
+  | move pf n np =>
+    intro q hq
+    simp only [Req.paths] at hq
+    rcases List.mem_append.mp hq with h | h
+    · exact guardedWrapperPaths_under root hr pf n q h
+    · exact movePart_under root hr pf np n [] (fun t => [(wrapper t).name]) (fun t => (wrapper t).name) q h
+  | setInfo pf n c nn =>
+    intro q hq
+    simp only [Req.paths] at hq
+    rcases List.mem_append.mp hq with h | h
+    · exact guardedWrapperPaths_under root hr pf n q h
+    · cases nn with
+      | none => simp at h
+      | some nn =>
+        dsimp only at h
+        rcases List.mem_append.mp h with h | h
+        · exact okPaths_under root hr pf nn q h
+        · exact movePart_under root hr pf pf n [] (fun _ => newNameComps nn) (fun _ => baseName (newNameComps nn)) q h
+  | newFolder pf n => exact okPaths_under root hr pf n
+  | alias pf n np =>
+    intro q hq
+    simp only [Req.paths] at hq
+    rcases List.mem_append.mp hq with h | h
+    · exact okPaths_under root hr pf n q h
+    · exact okPaths_under root hr np n q h
+  | list pf => exact okPaths_under root hr pf []
+  | uploadFile pf n r => exact okPaths_under root hr pf n
+  | downloadFolder pf n => exact okPaths_under root hr pf n
+
+theorem stat_root_of_lookup {fs : FS} {root : Path} (h : (statOk fs root).isSome) : lookup fs root ≠ none := by
+  intro e
+  simp [statOk, stat, statFuel, e] at h
+
+/-- `HandleUploadFile`: the `.incomplete` sibling is only looked at when the target does not exist,
+    hence never for the root itself (which exists). -/
+theorem uploadFilePaths_under (root : Path) (hr : RootOK root) (fs : FS) (hex : (statOk fs root).isSome)
+    (pf : Option Bytes) (name : Bytes) : ∀ q ∈ uploadFilePaths root fs pf name, root <+: q := by
+  unfold uploadFilePaths
+  cases ht : target root pf name with
+  | ok t =>
+    have hu := target_under root hr pf name t ht
+    dsimp only
+    intro q hq
+    rcases List.mem_cons.mp hq with rfl | hq
+    · exact hu
+    · by_cases hs : (statOk fs t).isSome = true
+      · rw [if_pos hs] at hq; simp at hq
+      · rw [if_neg hs] at hq
+        simp at hq; subst hq
+        have hne : t ≠ root := by intro e; subst e; exact hs hex
+        obtain ⟨r, rfl⟩ := hu
+        have hrn : r ≠ [] := by intro e; apply hne; simp [e]
+        unfold addSfx
+        rw [List.dropLast_append_of_ne_nil hrn, List.append_assoc]
+        exact List.prefix_append _ _
+  | err => intro q hq; simp at hq
+  | panic => intro q hq; simp at hq
+
+-- ---------------------------------------------------------------- folder upload
+
+theorem formattedComps_normal (segs : List Bytes) : ∀ c ∈ formattedComps segs, Normal c :=
+  items_normal segs [] (by simp)
+
+theorem addSfx_under (root p : Path) (s : Bytes) (h : root <+: p) (hne : p ≠ root) : root <+: addSfx p s := by
+  obtain ⟨r, rfl⟩ := h
+  have hrn : r ≠ [] := by intro e; apply hne; simp [e]
+  unfold addSfx
+  rw [List.dropLast_append_of_ne_nil hrn, List.append_assoc]
+  exact List.prefix_append _ _
+
+theorem statMissing_of_lookup {fs : FS} {p : Path} (h : statMissing fs p = true) (hs : (statOk fs p).isSome) : False := by
+  unfold statMissing at h
+  unfold statOk at hs
+  cases hst : stat statFuel fs p with
+  | ok v => simp [hst] at h
+  | error e => simp [hst] at hs
+
+/-- One `UploadFolderHandler` item: every path argument lies under the transfer's folder, hence
+    under the root — the `fileWrapper` side files are only computed for an item that does not
+    exist yet, so never for the (existing) upload folder itself. -/
+theorem folderItemPaths_under (root full : Path) (fs : FS) (segs : List Bytes) (isFolder : Bool)
+    (hfull : root <+: full) (hex : (statOk fs full).isSome) :
+    ∀ q ∈ folderItemPaths fs full (formattedComps segs) isFolder, root <+: q := by
+  have hj : root <+: full ++ formattedComps segs := under_append root full _ hfull
+  have hinc : root <+: full ++ addSfx (formattedComps segs) incSfx := under_append root full _ hfull
+  unfold folderItemPaths
+  dsimp only
+  split
+  · intro q hq; simp at hq; subst hq; exact hj
+  · intro q hq
+    rcases List.mem_append.mp hq with h | h
+    · simp at h; rcases h with rfl | rfl <;> assumption
+    · split at h
+      · rename_i hm
+        simp only [Bool.and_eq_true] at hm
+        have hne : full ++ formattedComps segs ≠ root := by
+          intro e
+          -- the join would be the root: then it is `full` itself (root <+: full), which exists
+          have hlen : (full ++ formattedComps segs).length = root.length := by rw [e]
+          obtain ⟨r, rfl⟩ := hfull
+          simp at hlen
+          have hr0 : r = [] := by cases r with | nil => rfl | cons _ _ => simp at hlen
+          have hf0 : formattedComps segs = [] := by
+            cases h0 : formattedComps segs with | nil => rfl | cons _ _ => simp [h0] at hlen
+          subst hr0
+          simp only [List.append_nil, hf0] at hm hex
+          exact statMissing_of_lookup hm.1 hex
+        exact wrapperPaths_under root _ hj hne q h
+      · simp at h
+
+-- ---------------------------------------------------------------- account files
+
+theorem incSfx_len : incSfx.length = 11 := rfl
+
+theorem splitSlash_append_noslash (a b : Bytes) (hb : slash ∉ b) :
+    PathAlg.splitSlash (a ++ b) = (PathAlg.splitSlash a).dropLast ++ [(PathAlg.splitSlash a).getLast?.getD [] ++ b] := by
+  induction a with
+  | nil => simp [PathAlg.splitSlash, splitSlash_noslash b hb]
+  | cons x a ih =>
+    by_cases hx : x = slash
+    · subst hx
+      rw [List.cons_append, splitSlash_slash, splitSlash_slash, ih]
+      have hne := splitSlash_ne_nil a
+      cases hs : PathAlg.splitSlash a with
+      | nil => exact absurd hs hne
+      | cons c cs => simp [List.getLast?_cons_cons]
+    · rw [List.cons_append, splitSlash_cons_ne x _ hx, splitSlash_cons_ne x a hx, ih]
+      have hne := splitSlash_ne_nil a
+      cases hs : PathAlg.splitSlash a with
+      | nil => exact absurd hs hne
+      | cons c cs =>
+        cases cs with
+        | nil => simp [consHead]
+        | cons d ds => simp [consHead, List.getLast?_cons_cons]
+
+theorem normal_append_sfx (x s : Bytes) (hx : slash ∉ x) (hs : slash ∉ s) (hl : 3 ≤ s.length) : Normal (x ++ s) := by
+  refine ⟨?_, ?_, ?_, ?_⟩
+  · intro e; have := congrArg List.length e
+    simp only [List.length_append, List.length_nil] at this; omega
+  · intro e; have := congrArg List.length e
+    simp only [List.length_append, dot, List.length_cons, List.length_nil] at this; omega
+  · intro e; have := congrArg List.length e
+    simp only [List.length_append, dotdot, List.length_cons, List.length_nil] at this; omega
+  · intro h; rcases List.mem_append.mp h with h | h
+    · exact hx h
+    · exact hs h
+
+theorem yaml_noslash : slash ∉ yamlSfx := by decide
+
+/-- `path.Join("/", login+".yaml")` always ends in a component `….yaml`: it is never empty. -/
+theorem joinRooted_yaml_ne_nil (login : Bytes) : joinRooted [] (login ++ yamlSfx) ≠ [] := by
+  unfold joinRooted
+  rw [splitSlash_append_noslash login yamlSfx yaml_noslash, List.foldl_append]
+  have hl : slash ∉ (PathAlg.splitSlash login).getLast?.getD [] := by
+    cases hg : (PathAlg.splitSlash login).getLast? with
+    | none => simp
+    | some c => simpa using splitSlash_no_slash login c (List.mem_of_getLast? hg)
+  have hn := normal_append_sfx _ yamlSfx hl yaml_noslash (by decide)
+  simp only [List.foldl_cons, List.foldl_nil]
+  rw [step_of_normal _ _ hn]
+  simp
+
+theorem strict_under_of_append (dir r : Path) (hr : r ≠ []) : dir <+: dir ++ r ∧ dir ++ r ≠ dir := by
+  refine ⟨List.prefix_append _ _, ?_⟩
+  intro e
+  have := congrArg List.length e
+  simp at this
+  exact hr this
+
+theorem addSfx_ne_nil (p : Path) (s : Bytes) : addSfx p s ≠ [] := by simp [addSfx]
+
+theorem addSfx_append (dir r : Path) (s : Bytes) (hr : r ≠ []) : addSfx (dir ++ r) s = dir ++ addSfx r s := by
+  unfold addSfx baseName
+  have hrr := List.dropLast_concat_getLast hr
+  have hg : (dir ++ r).getLast? = r.getLast? := by
+    rw [← hrr]; simp [List.getLast?_append]
+  rw [List.dropLast_append_of_ne_nil hr, hg, List.append_assoc]
+
+/-- Account files: for every login (and every new login of a rename) the file and its temporary
+    sibling lie strictly below the accounts directory. -/
+theorem acctPaths_under (dir : Path) (login new : Bytes) :
+    (∀ q ∈ acctCreatePaths dir login, dir <+: q ∧ q ≠ dir) ∧
+    (∀ q ∈ acctUpdatePaths dir login new, dir <+: q ∧ q ≠ dir) ∧
+    (∀ q ∈ acctDeletePaths dir login, dir <+: q ∧ q ≠ dir) := by
+  have h1 := strict_under_of_append dir _ (joinRooted_yaml_ne_nil login)
+  have h1t : dir <+: addSfx (acctFile1 dir login) tmpSfx ∧ addSfx (acctFile1 dir login) tmpSfx ≠ dir := by
+    unfold acctFile1
+    rw [addSfx_append dir _ tmpSfx (joinRooted_yaml_ne_nil login)]
+    exact strict_under_of_append dir _ (addSfx_ne_nil _ _)
+  have h2 : ∀ l, dir <+: acctFile2 dir l ∧ acctFile2 dir l ≠ dir :=
+    fun l => strict_under_of_append dir _ (addSfx_ne_nil _ _)
+  have h2t : dir <+: addSfx (acctFile2 dir new) tmpSfx ∧ addSfx (acctFile2 dir new) tmpSfx ≠ dir := by
+    unfold acctFile2
+    rw [addSfx_append dir _ tmpSfx (addSfx_ne_nil _ _)]
+    exact strict_under_of_append dir _ (addSfx_ne_nil _ _)
+  refine ⟨?_, ?_, ?_⟩
+  · intro q hq; simp [acctCreatePaths] at hq; rcases hq with rfl | rfl
+    · exact h1t
+    · exact h1
+  · intro q hq; simp [acctUpdatePaths] at hq; rcases hq with rfl | rfl | rfl
+    · exact h2 login
+    · exact h2 new
+    · exact h2t
+  · intro q hq; simp [acctDeletePaths] at hq; subst hq; exact h1
+
+theorem not_under_of (dir q x : Path) (hq : dir <+: q) (hx : ¬ dir <+: x) : ¬ q <+: x :=
+  fun h => hx (List.IsPrefix.trans hq h)
+
+/-- Account operations change nothing outside the accounts directory. -/
+theorem acct_keeps (dir : Path) (fs : FS) (login new yaml : Bytes) :
+    (∀ x, ¬ dir <+: x → lookup (acctCreate fs dir login yaml) x = lookup fs x) ∧
+    (∀ x, ¬ dir <+: x → lookup (acctUpdate fs dir login new yaml) x = lookup fs x) ∧
+    (∀ x, ¬ dir <+: x → lookup (acctDelete fs dir login) x = lookup fs x) := by
+  obtain ⟨hc, hu, hd⟩ := acctPaths_under dir login new
+  simp only [acctCreatePaths, acctUpdatePaths, acctDeletePaths, List.mem_cons, List.mem_nil_iff, or_false,
+    forall_eq_or_imp, forall_eq] at hc hu hd
+  refine ⟨?_, ?_, ?_⟩
+  · intro x hx
+    unfold acctCreate
+    dsimp only
+    have e1 := writeFile_frame fs _ x yaml (not_under_of dir _ x hc.1.1 hx)
+    split
+    · exact e1
+    · rw [remove_frame _ _ x (not_under_of dir _ x hc.1.1 hx), hardlink_frame _ _ _ x (not_under_of dir _ x hc.2.1 hx), e1]
+  · intro x hx
+    have hseq : ∀ fs0 : FS, lookup (runSeq fs0 [(FSOp.writeFile (addSfx (acctFile2 dir new) tmpSfx) yaml, false),
+        (FSOp.rename (addSfx (acctFile2 dir new) tmpSfx) (acctFile2 dir new), false)]).2 x = lookup fs0 x := by
+      intro fs0
+      apply runSeq_outside dir _ _ x _ hx
+      intro o ho q hq
+      simp at ho
+      rcases ho with rfl | rfl
+      · simp [FSOp.paths] at hq; subst hq; exact hu.2.2.1
+      · simp [FSOp.paths] at hq; rcases hq with rfl | rfl
+        · exact hu.2.2.1
+        · exact hu.2.1.1
+    unfold acctUpdate
+    dsimp only
+    by_cases hne : login ≠ new
+    · rw [if_pos hne]
+      have e0 := rename_frame fs (acctFile2 dir login) (acctFile2 dir new) x
+        (not_under_of dir _ x hu.1.1 hx) (not_under_of dir _ x hu.2.1.1 hx)
+      split
+      · exact e0
+      · rw [hseq, e0]
+    · rw [if_neg hne]
+      split
+      · rfl
+      · exact hseq fs
+  · intro x hx
+    exact remove_frame fs _ x (not_under_of dir _ x hd.1 hx)
+
+-- ---------------------------------------------------------------- shape of a target; histories
+
+theorem readPath_eq (root : Path) (items : List Bytes) (name : Bytes) :
+    readPath root items name = root ++ (items.foldl joinRooted [] ++ joinRooted [] name) := by
+  unfold readPath
+  exact foldl_step_of_normal _ _ (by
+    intro c hc
+    rcases List.mem_append.mp hc with h | h
+    · exact items_normal items [] (by simp) c h
+    · exact joinRooted_normal [] name (by simp) c h)
+
+/-- A target is the root followed by `Normal` components only: no `..`, `.`, empty or `/`-containing
+    component survives, whatever the bytes of the path items and the name. -/
+theorem target_shape (root : Path) (hr : RootOK root) (pf : Option Bytes) (name : Bytes) (t : Path)
+    (h : target root pf name = .ok t) : ∃ rest, t = root ++ rest ∧ ∀ c ∈ rest, Normal c := by
+  unfold target at h
+  cases hp : parsePath pf with
+  | ok items =>
+    simp only [hp] at h
+    injection h with h; subst h
+    refine ⟨(items.foldl joinRooted [] ++ joinRooted [] name).map decodeStr, ?_, ?_⟩
+    · rw [readPath_eq, List.map_append, hr]
+    · intro c hc
+      obtain ⟨c0, hc0, rfl⟩ := List.mem_map.mp hc
+      apply (normal_decodeStr c0).mpr
+      rcases List.mem_append.mp hc0 with h | h
+      · exact items_normal items [] (by simp) c0 h
+      · exact joinRooted_normal [] name (by simp) c0 h
+  | err => simp [hp] at h
+  | panic => simp [hp] at h
+
+/-- Run a history of requests. -/
+def handleAll (root : Path) (ig : Bytes → Bool) (fs : FS) (reqs : List Req) : FS :=
+  reqs.foldl (fun fs r => (handle root ig fs r).1) fs
+
+theorem handleAll_keeps (root : Path) (hr : RootOK root) (ig : Bytes → Bool) (fs : FS) (reqs : List Req) :
+    Keeps root fs (handleAll root ig fs reqs) := by
+  induction reqs generalizing fs with
+  | nil => exact Keeps.rfl' root fs
+  | cons r rs ih =>
+    exact Keeps.trans (handle_keeps root hr ig fs r) (ih (handle root ig fs r).1)
+
+-- ---------------------------------------------------------------- file list (C11)
+
+/-- The entry can be shown: it resolves (an alias whose target is gone is skipped by the server). -/
+def visible (fs : FS) (d : Path) (ig : Bytes → Bool) (c : Comp × Node) : Bool :=
+  match entryInfo fs d ig c.1 c.2 with
+  | .ok (some _) => true
+  | _ => false
+
+/-- What the list shows of a folder: not ignored, resolvable, name representable in Mac-Roman. -/
+def shown (fs : FS) (d : Path) (ig : Bytes → Bool) (c : Comp × Node) : Bool :=
+  !ig c.1 && visible fs d ig c && (encStr (trimInc c.1)).isSome
+
+theorem listEntries_spec (fs : FS) (d : Path) (ig : Bytes → Bool) (cs : List (Comp × Node)) (es : List Entry)
+    (h : listEntries fs d ig cs = .ok es) :
+    es.map (·.disk) = (cs.filter (shown fs d ig)).map (·.1) ∧
+    ∀ e ∈ es, encStr (trimInc e.disk) = some e.name := by
+  induction cs generalizing es with
+  | nil =>
+    simp [listEntries] at h; subst h; simp
+  | cons c cs ih =>
+    obtain ⟨n, node⟩ := c
+    unfold listEntries at h
+    by_cases hig : ig n = true
+    · simp only [hig, if_true] at h
+      have := ih es h
+      simp [shown, hig, this.1]
+      exact this.2
+    · simp only [hig] at h
+      have hig' : ig n = false := by simpa using hig
+      cases hei : entryInfo fs d ig n node with
+      | err => simp [hei] at h
+      | panic => simp [hei] at h
+      | ok o =>
+        cases o with
+        | none =>
+          simp only [hei] at h
+          have := ih es h
+          refine ⟨?_, this.2⟩
+          simp [shown, visible, hei, this.1]
+        | some tcs =>
+          obtain ⟨ty, cr, sz⟩ := tcs
+          simp only [hei] at h
+          cases hrest : listEntries fs d ig cs with
+          | err => simp [hrest] at h
+          | panic => simp [hrest] at h
+          | ok es' =>
+            simp only [hrest] at h
+            have := ih es' hrest
+            cases henc : encStr (trimInc n) with
+            | none =>
+              simp only [henc] at h
+              injection h with h; subst h
+              refine ⟨?_, this.2⟩
+              simp [shown, visible, hei, henc, this.1]
+            | some en =>
+              simp only [henc] at h
+              injection h with h; subst h
+              refine ⟨?_, ?_⟩
+              · simp [shown, visible, hei, henc, hig', this.1]
+              · intro e he
+                rcases List.mem_cons.mp he with rfl | he
+                · exact henc
+                · exact this.2 e he
+
+/-- C11 list clause: the list shows exactly the entries of the folder that match no ignore pattern
+    (and can be shown at all), each exactly once, a partial upload under its final name. -/
+theorem fileList_exact (fs : FS) (d : Path) (ig : Bytes → Bool) (es : List Entry) (h : fileList fs d ig = .ok es) :
+    (es.map (·.disk)).Nodup ∧
+    (∀ n, n ∈ es.map (·.disk) ↔ ∃ nd, lookup fs (d ++ [n]) = some nd ∧ shown fs d ig (n, nd) = true) ∧
+    (∀ e ∈ es, encStr (trimInc e.disk) = some e.name) := by
+  obtain ⟨h1, h2⟩ := listEntries_spec fs d ig (children fs d) es h
+  refine ⟨?_, ?_, h2⟩
+  · rw [h1]
+    exact (children_names_nodup fs d).sublist (List.Sublist.map _ List.filter_sublist)
+  · intro n
+    rw [h1, List.mem_map]
+    constructor
+    · rintro ⟨c, hc, rfl⟩
+      obtain ⟨hmem, hs⟩ := List.mem_filter.mp hc
+      exact ⟨c.2, (mem_children fs d c.1 c.2).mp hmem, hs⟩
+    · rintro ⟨nd, hl, hs⟩
+      exact ⟨(n, nd), List.mem_filter.mpr ⟨(mem_children fs d n nd).mpr hl, hs⟩, rfl⟩
+
+-- ---------------------------------------------------------------- addressing by the listed name
+
+theorem joinRooted_nil_nil : joinRooted [] [] = [] := by decide
+
+theorem joinRooted_normal_one (acc : List Comp) (m : Bytes) (hm : Normal m) : joinRooted acc m = acc ++ [m] := by
+  unfold joinRooted
+  rw [splitSlash_noslash m hm.2.2.2]
+  simp [step_of_normal acc m hm]
+
+/-- C11 addressing clause: the bytes shown in the list for an entry `n` of the folder addressed by
+    `pf`, sent back unchanged as the file name, make `ReadPath` resolve to that entry
+    (`decodeStr ∘ encStr = id`, and a listed name is one `Normal` component). -/
+theorem listed_name_resolves (root : Path) (pf : Option Bytes) (d : Path) (n m : Bytes)
+    (hd : target root pf [] = .ok d) (hn : Normal n) (hm : encStr n = some m) :
+    target root pf m = .ok (d ++ [n]) := by
+  have hmn := encStr_normal n m hm hn
+  unfold target at hd ⊢
+  cases hp : parsePath pf with
+  | ok items =>
+    simp only [hp] at hd ⊢
+    injection hd with hd
+    rw [readPath_eq, joinRooted_nil_nil, List.append_nil] at hd
+    rw [readPath_eq, joinRooted_normal_one [] m hmn, ← hd]
+    simp [decodeStr_encStr n m hm]
+  | err => simp [hp] at hd
+  | panic => simp [hp] at hd
+
+/-- Every handler starts with `withTarget root fs pf name`: with a listed name it runs on the listed entry. -/
+theorem withTarget_listed (root : Path) (fs : FS) (pf : Option Bytes) (d : Path) (n m : Bytes)
+    (hd : target root pf [] = .ok d) (hn : Normal n) (hm : encStr n = some m) (k : Path → FS × Reply) :
+    withTarget root fs pf m k = k (d ++ [n]) := by
+  unfold withTarget
+  rw [listed_name_resolves root pf d n m hd hn hm]
+
+-- ---------------------------------------------------------------- the three views of a regular file
+
+theorem stat_file (fs : FS) (p : Path) (b : Bytes) (h : lookup fs p = some (.file b)) :
+    stat statFuel fs p = .ok (p, .file b) := by
+  simp [statFuel, stat, h]
+
+theorem statOk_file (fs : FS) (p : Path) (b : Bytes) (h : lookup fs p = some (.file b)) :
+    statOk fs p = some (.file b) := by
+  simp [statOk, stat_file fs p b h]
+
+/-- C11 agreement clause: for a regular file without resource fork the size in the list, in
+    get-info and in the download reply equal the number of bytes on disk (as uint32), and the type
+    code in the list equals the one in get-info. -/
+theorem views_agree (root : Path) (ig : Bytes → Bool) (fs : FS) (pf : Option Bytes) (name : Bytes) (d : Path) (n : Comp)
+    (b : Bytes) (f : Ffo)
+    (ht : target root pf name = .ok (d ++ [n])) (hnr : isRoot root (d ++ [n]) = false)
+    (hfile : lookup fs (d ++ [n]) = some (.file b))
+    (hrsrc : statOk fs (wrapper (d ++ [n])).rsrc = none)
+    (hffo : ffo fs (d ++ [n]) = .ok f) (en : Bytes) (hen : encStr (wrapper (d ++ [n])).name = some en) :
+    let ty := f.fork.ty.take 4
+    let sz := b.length % 4294967296
+    entryInfo fs d ig n (.file b) = .ok (some (ty, f.fork.creator.take 4, sz)) ∧
+    (getInfo root fs pf name).2 = .info en (friendly ty) (friendly (f.fork.creator.take 4)) ty
+        (if f.fork.comment = [] then none else some f.fork.comment) (if ty = tyFldr then none else some sz) ∧
+    (∃ x, (download root fs pf name).2 = .download x sz) := by
+  have hts : totalSize fs (d ++ [n]) = b.length % 4294967296 := by
+    unfold totalSize rsrcSize
+    have : (wrapper (d ++ [n])).data = d ++ [n] := rfl
+    simp [this, statOk_file fs _ b hfile, hrsrc, Node.size]
+  have hds : f.dataSize = b.length := by
+    unfold ffo at hffo
+    have : (wrapper (d ++ [n])).data = d ++ [n] := rfl
+    simp only [this, stat_file fs _ b hfile] at hffo
+    split at hffo
+    · split at hffo
+      · injection hffo with hffo; rw [← hffo]; rfl
+      · split at hffo
+        · injection hffo with hffo; rw [← hffo]; rfl
+        · cases hffo
+        · cases hffo
+    · cases hffo
+    · injection hffo with hffo; rw [← hffo]; rfl
+  refine ⟨?_, ?_, ?_⟩
+  · simp only [entryInfo, hffo, hts]
+  · unfold getInfo withTarget
+    simp only [ht, hnr, hffo, hen, hts]
+    rfl
+  · unfold download withTarget
+    simp only [ht, hnr, hffo, hds]
+    exact ⟨_, rfl⟩
+
+-- ---------------------------------------------------------------- mutating requests: reference semantics
+
+theorem stat_exists_not_missing (fs : FS) (t : Path) (n : Node) (h : lookup fs t = some n) (hl : ∀ x, n ≠ .link x) :
+    stat statFuel fs t = .ok (t, n) := by
+  cases n with
+  | file b => simp [statFuel, stat, h]
+  | dir => simp [statFuel, stat, h]
+  | link x => exact absurd rfl (hl x)
+
+/-- Create-folder never replaces an existing entry: if anything is bound at the target (file,
+    folder or alias — dangling or not), the namespace is unchanged and the reply is an error. -/
+theorem newFolder_never_replaces (root : Path) (fs : FS) (pf : Option Bytes) (name : Bytes) (t : Path) (n : Node)
+    (ht : target root pf name = .ok t) (hex : lookup fs t = some n) :
+    newFolder root fs pf name = (fs, .err) := by
+  unfold newFolder withTarget
+  simp only [ht]
+  split
+  · -- Stat said "not found" although the path is bound (a dangling alias): Mkdir fails with EEXIST
+    simp [runSeq, FSOp.apply, FS.mkdir, hex]
+  · rfl
+
+/-- Create-folder on a free name inside an existing folder creates exactly that folder. -/
+theorem newFolder_creates (root : Path) (fs : FS) (pf : Option Bytes) (name : Bytes) (t : Path)
+    (ht : target root pf name = .ok t) (hfree : lookup fs t = none) (hne : t ≠ [])
+    (hparent : lookup fs t.dropLast = some .dir) (hst : stat statFuel fs t = .error .notExist) :
+    newFolder root fs pf name = ((t, .dir) :: fs, .ok) := by
+  unfold newFolder withTarget
+  simp only [ht, hst]
+  have hp : parentErr fs t = .ok := by
+    unfold parentErr
+    cases t with
+    | nil => exact absurd rfl hne
+    | cons a as => simp only [hparent]
+  simp [runSeq, FSOp.apply, FS.mkdir, hfree, hp]
+
+/-- Alias = symlink: an acknowledged make-alias binds the destination to a link to the source path. -/
+theorem alias_is_symlink (root : Path) (fs : FS) (pf : Option Bytes) (name : Bytes) (newPf : Option Bytes) (src dst : Path) (fs' : FS)
+    (hs : target root pf name = .ok src) (hd : target root newPf name = .ok dst)
+    (hok : alias root fs pf name newPf = (fs', .ok)) :
+    fs' = (dst, .link src) :: fs ∧ lookup fs' dst = some (.link src) ∧ lookup fs dst = none := by
+  unfold alias withTarget at hok
+  simp only [hs, hd, runSeq, FSOp.apply, FS.symlink] at hok
+  cases hl : lookup fs dst with
+  | some x => simp [hl] at hok
+  | none =>
+    simp only [hl] at hok
+    cases hp : parentErr fs dst with
+    | ok =>
+      simp [hp] at hok
+      subst hok
+      exact ⟨rfl, by simp [lookup], rfl⟩
+    | notExist => simp [hp] at hok
+    | other => simp [hp] at hok
+
+theorem lookup_writeFile (fs fs' : FS) (p : Path) (d : Bytes) (h : FS.writeFile fs p d = (.ok, fs')) :
+    lookup fs' p = some (.file d) := by
+  unfold FS.writeFile at h
+  split at h
+  · injection h with _ h; subst h; simp [lookup]
+  · injection h with h _; cases h
+  · split at h
+    · injection h with _ h; subst h; simp [lookup]
+    · rename_i e he
+      injection h with h _
+      exact absurd h he
+
+/-- Set-comment writes the information fork: after an acknowledged set-comment (no rename) the
+    `.info_<name>` side file holds the fork with the new comment; nothing else changes. -/
+theorem setComment_writes_info (root : Path) (fs : FS) (pf : Option Bytes) (name c : Bytes) (t : Path) (f : Ffo) (fs' : FS)
+    (ht : target root pf name = .ok t) (hffo : ffo fs t = .ok f)
+    (hok : setInfo root fs pf name (some c) none = (fs', .ok)) :
+    lookup fs' (wrapper t).info = some (.file ({ f.fork with comment := c }).encode) ∧
+    ∀ x, x ≠ (wrapper t).info → lookup fs' x = lookup fs x := by
+  unfold setInfo withTarget at hok
+  simp only [ht] at hok
+  split at hok
+  · cases hok
+  · split at hok
+    · cases hok
+    · simp only [hffo, commentStep, runSeq, FSOp.apply, renameStep] at hok
+      cases hw : FS.writeFile fs (wrapper t).info ({ f.fork with comment := c }).encode with
+      | mk e fs1 =>
+        simp only [hw] at hok
+        cases e with
+        | ok =>
+          simp at hok
+          subst hok
+          refine ⟨lookup_writeFile fs _ _ _ hw, ?_⟩
+          intro x hx
+          have : fs1 = (FS.writeFile fs (wrapper t).info ({ f.fork with comment := c }).encode).2 := by rw [hw]
+          rw [this]
+          unfold FS.writeFile
+          split
+          · show lookup (_ :: erase fs _) x = _
+            rw [lookup_cons_ne _ _ _ _ (Ne.symm hx), lookup_erase fs _ x (Ne.symm hx)]
+          · rfl
+          · split
+            · exact lookup_cons_ne _ _ _ _ (Ne.symm hx)
+            · rfl
+        | notExist => simp at hok
+        | other => simp at hok
+
+-- ---------------------------------------------------------------- delete
+
+theorem runSeq_cons_ok (fs fs' : FS) (op : FSOp) (tol : Bool) (rest : List (FSOp × Bool))
+    (h : runSeq fs ((op, tol) :: rest) = (.ok, fs')) :
+    ((op.apply fs).1 = .ok ∨ (tol = true ∧ (op.apply fs).1 = .notExist)) ∧ runSeq (op.apply fs).2 rest = (.ok, fs') := by
+  unfold runSeq at h
+  dsimp only at h
+  split at h
+  · rename_i hc; exact ⟨hc, h⟩
+  · rename_i hc
+    have : (op.apply fs).1 = .ok := by rw [h]
+    exact absurd (Or.inl this) hc
+
+theorem runSeq_nil_ok (fs fs' : FS) (h : runSeq fs [] = (.ok, fs')) : fs' = fs := by
+  simp [runSeq] at h; exact h.symm
+
+theorem lookup_none_of_forall (fs : FS) (x : Path) (h : ∀ e ∈ fs, e.1 ≠ x) : lookup fs x = none := by
+  induction fs with
+  | nil => rfl
+  | cons e fs ih =>
+    rw [lookup_cons, if_neg (h e (by simp))]
+    exact ih (fun e he => h e (by simp [he]))
+
+theorem lookup_erase_self (fs : FS) (p : Path) : lookup (erase fs p) p = none := by
+  apply lookup_none_of_forall
+  intro e he
+  have := (List.mem_filter.mp he).2
+  simpa using this
+
+theorem lookup_removeAll_under (fs : FS) (p x : Path) (h : p <+: x) : lookup (FS.removeAll fs p).2 x = none := by
+  apply lookup_none_of_forall
+  intro e he hx
+  have := (List.mem_filter.mp he).2
+  simp [hx, h] at this
+
+/-- `os.Remove` that succeeded, or failed with "not found": afterwards nothing is bound at `p`;
+    every other path is untouched. -/
+theorem remove_tolerated (fs : FS) (p : Path)
+    (h : (FS.remove fs p).1 = .ok ∨ (FS.remove fs p).1 = .notExist) :
+    lookup (FS.remove fs p).2 p = none ∧ ∀ x, x ≠ p → lookup (FS.remove fs p).2 x = lookup fs x := by
+  unfold FS.remove at h ⊢
+  cases hl : lookup fs p with
+  | none => simp [hl]
+  | some n =>
+    cases n with
+    | dir =>
+      simp only [hl] at h ⊢
+      split
+      · rename_i hc; simp [hc] at h
+      · exact ⟨lookup_erase_self fs p, fun x hx => lookup_erase fs p x (Ne.symm hx)⟩
+    | file b => exact ⟨lookup_erase_self fs p, fun x hx => lookup_erase fs p x (Ne.symm hx)⟩
+    | link t => exact ⟨lookup_erase_self fs p, fun x hx => lookup_erase fs p x (Ne.symm hx)⟩
+
+theorem prefix_same_length {a b x : Path} (ha : a <+: x) (hb : b <+: x) (hl : a.length = b.length) : a = b := by
+  obtain ⟨r, rfl⟩ := ha
+  obtain ⟨s, hs⟩ := hb
+  have := List.append_inj hs.symm hl
+  exact this.1
+
+theorem rsrc_ne_info : rsrcPfx ≠ infoPfx := by decide
+
+/-- The four paths of a wrapper are pairwise different and have the same length (for a non-empty path). -/
+theorem wrapper_distinct (t : Path) (ht : t ≠ []) :
+    let w := wrapper t
+    w.data.length = t.length ∧ w.inc.length = t.length ∧ w.rsrc.length = t.length ∧ w.info.length = t.length ∧
+    w.inc ≠ w.data ∧ w.rsrc ≠ w.data ∧ w.info ≠ w.data ∧ w.inc ≠ w.rsrc ∧ w.inc ≠ w.info ∧ w.rsrc ≠ w.info := by
+  have hdl := List.dropLast_concat_getLast ht
+  have hb : baseName t = t.getLast ht := by
+    unfold baseName; rw [List.getLast?_eq_some_getLast ht]; rfl
+  have hpos : 0 < t.length := List.length_pos_iff.mpr ht
+  have hlen : t.dropLast.length + 1 = t.length := by
+    rw [List.length_dropLast]; omega
+  have hdata : (wrapper t).data = t.dropLast ++ [baseName t] := by rw [hb, hdl]; rfl
+  dsimp only
+  have hl1 : ∀ c : Comp, (t.dropLast ++ [c]).length = t.length := by intro c; simp; omega
+  refine ⟨rfl, hl1 _, hl1 _, hl1 _, ?_, ?_, ?_, ?_, ?_, ?_⟩
+  · rw [hdata]; intro e
+    have := List.append_cancel_left e
+    have := congrArg List.length (List.cons.inj this).1
+    simp only [List.length_append, incSfx, List.length_cons, List.length_nil] at this; omega
+  · rw [hdata]; intro e
+    have := List.append_cancel_left e
+    have := congrArg List.length (List.cons.inj this).1
+    simp only [List.length_append, rsrcPfx, List.length_cons, List.length_nil] at this; omega
+  · rw [hdata]; intro e
+    have := List.append_cancel_left e
+    have := congrArg List.length (List.cons.inj this).1
+    simp only [List.length_append, infoPfx, List.length_cons, List.length_nil] at this; omega
+  · intro e
+    have := List.append_cancel_left e
+    have := congrArg List.length (List.cons.inj this).1
+    simp only [List.length_append, incSfx, rsrcPfx, List.length_cons, List.length_nil] at this; omega
+  · intro e
+    have := List.append_cancel_left e
+    have := congrArg List.length (List.cons.inj this).1
+    simp only [List.length_append, incSfx, infoPfx, List.length_cons, List.length_nil] at this; omega
+  · intro e
+    have := List.append_cancel_left e
+    have h6 := congrArg (List.take 6) (List.cons.inj this).1
+    simp [rsrcPfx, infoPfx] at h6
+
+theorem ne_nil_of_strict_under {root t : Path} (h : root <+: t) (hne : t ≠ root) : t ≠ [] := by
+  intro e; subst e
+  exact hne (List.prefix_nil.mp h).symm
+
+/-- Delete removes the whole file: after an acknowledged delete nothing is bound at or below the
+    target nor at its `.incomplete` / `.rsrc_` / `.info_` side files, and every other path is unchanged. -/
+theorem delete_removes_whole (root : Path) (hr : RootOK root) (fs : FS) (pf : Option Bytes) (name : Bytes) (t : Path) (fs' : FS)
+    (ht : target root pf name = .ok t) (hok : delete root fs pf name = (fs', .ok)) :
+    (∀ x, t <+: x → lookup fs' x = none) ∧
+    lookup fs' (wrapper t).inc = none ∧ lookup fs' (wrapper t).rsrc = none ∧ lookup fs' (wrapper t).info = none ∧
+    (∀ x, ¬ t <+: x → x ≠ (wrapper t).inc → x ≠ (wrapper t).rsrc → x ≠ (wrapper t).info → lookup fs' x = lookup fs x) := by
+  have hu := target_under root hr pf name t ht
+  unfold delete withTarget at hok
+  simp only [ht] at hok
+  by_cases hroot : isRoot root t = true
+  · rw [if_pos hroot] at hok; cases hok
+  · rw [if_neg hroot] at hok
+    have htne := ne_nil_of_strict_under hu (isRoot_false (by simpa using hroot))
+    obtain ⟨_, hli, hlr, hlf, hid, hrd, hfd, hir, hif, hrf⟩ := wrapper_distinct t htne
+    have hdata : (wrapper t).data = t := rfl
+    rw [hdata] at hid hrd hfd
+    -- the reply is `ok`: the script ran to the end
+    have hrun : runSeq fs (deleteScript t) = (.ok, fs') := by
+      split at hok
+      · cases hok
+      · cases hok
+      · split at hok
+        · cases hok
+        · split at hok
+          · rename_i h1
+            injection hok with h2 _
+            exact Prod.ext h1 h2
+          · cases hok
+    unfold deleteScript at hrun
+    dsimp only at hrun
+    rw [hdata] at hrun
+    obtain ⟨_, h1⟩ := runSeq_cons_ok _ _ _ _ _ hrun
+    obtain ⟨c2, h2⟩ := runSeq_cons_ok _ _ _ _ _ h1
+    obtain ⟨c3, h3⟩ := runSeq_cons_ok _ _ _ _ _ h2
+    obtain ⟨c4, h4⟩ := runSeq_cons_ok _ _ _ _ _ h3
+    have h5 := runSeq_nil_ok _ _ h4
+    simp only [FSOp.apply] at c2 c3 c4 h5
+    have t2 := remove_tolerated _ (wrapper t).inc (c2.imp id (·.2))
+    have t3 := remove_tolerated _ (wrapper t).rsrc (c3.imp id (·.2))
+    have t4 := remove_tolerated _ (wrapper t).info (c4.imp id (·.2))
+    -- a side file is not below the target, nor is anything below the target a side file
+    have side_not_under : ∀ q, q.length = t.length → q ≠ t → ∀ x, t <+: x → x ≠ q := by
+      intro q hl hq x hx e
+      subst e
+      exact hq (List.IsPrefix.eq_of_length hx hl.symm).symm
+    subst h5
+    refine ⟨?_, ?_, ?_, ?_, ?_⟩
+    · intro x hx
+      rw [t4.2 x (side_not_under _ hlf hfd x hx), t3.2 x (side_not_under _ hlr hrd x hx),
+        t2.2 x (side_not_under _ hli hid x hx)]
+      exact lookup_removeAll_under fs t x hx
+    · rw [t4.2 _ hif, t3.2 _ hir]; exact t2.1
+    · rw [t4.2 _ hrf]; exact t3.1
+    · exact t4.1
+    · intro x hx h1 h2 h3
+      rw [t4.2 x h3, t3.2 x h2, t2.2 x h1]
+      exact removeAll_frame fs t x hx
+
+-- ---------------------------------------------------------------- rename / move
+
+theorem lookup_rekey_dst (fs : FS) (a b : Path) (hnb : ∀ e ∈ fs, e.1 ≠ b) :
+    lookup (fs.map (rekey a b)) b = lookup fs a := by
+  induction fs with
+  | nil => rfl
+  | cons e fs ih =>
+    have ih' := ih (fun e he => hnb e (by simp [he]))
+    simp only [List.map_cons, lookup_cons]
+    unfold rekey
+    by_cases hp : a <+: e.1
+    · rw [if_pos hp]
+      by_cases hea : e.1 = a
+      · simp [hea]
+      · have : b ++ e.1.drop a.length ≠ b := by
+          intro h
+          have h2 : e.1.drop a.length = [] := by simpa using h
+          obtain ⟨r, hr⟩ := hp
+          rw [← hr] at h2
+          simp at h2
+          subst h2
+          simp at hr
+          exact hea hr.symm
+        simp only [this, hea, if_false]
+        exact ih'
+    · rw [if_neg hp]
+      have h1 : e.1 ≠ b := hnb e (by simp)
+      have h2 : e.1 ≠ a := fun h => hp (h ▸ List.prefix_refl a)
+      simp only [h1, h2, if_false]
+      exact ih'
+
+theorem lookup_rekey_src (fs : FS) (a b : Path) (hba : ¬ b <+: a) : lookup (fs.map (rekey a b)) a = none := by
+  apply lookup_none_of_forall
+  intro e he
+  obtain ⟨e0, _, rfl⟩ := List.mem_map.mp he
+  unfold rekey
+  by_cases hp : a <+: e0.1
+  · rw [if_pos hp]
+    intro h
+    exact hba (h ▸ List.prefix_append b _)
+  · rw [if_neg hp]
+    intro h
+    exact hp (h ▸ List.prefix_refl a)
+
+theorem erase_ne (fs : FS) (b : Path) : ∀ e ∈ erase fs b, e.1 ≠ b := by
+  intro e he
+  have := (List.mem_filter.mp he).2
+  simpa using this
+
+/-- `os.Rename(a, b)` that succeeded (a ≠ b, neither an ancestor of the other): the node that was at
+    `a` is now at `b`, nothing is bound at `a`, and paths outside both are untouched. -/
+theorem rename_ok_spec (fs fs' : FS) (a b : Path) (h : FS.rename fs a b = (.ok, fs')) (hab : a ≠ b) (hba : ¬ b <+: a) :
+    lookup fs' b = lookup fs a ∧ lookup fs' a = none ∧ lookup fs a ≠ none ∧
+    (∀ x, ¬ a <+: x → ¬ b <+: x → lookup fs' x = lookup fs x) := by
+  have hfr := rename_frame fs a b
+  rw [h] at hfr
+  unfold FS.rename at h
+  split at h
+  · injection h with h _; unfold missingErr at h; split at h <;> cases h
+  · injection h with h _; cases h
+  · injection h with h _; unfold missingErr at h; split at h <;> cases h
+  · rename_i na hla _
+    rw [if_neg hab] at h
+    split at h
+    · split at h
+      · injection h with h _; cases h
+      · split at h
+        · injection h with h _; cases h
+        · injection h with _ h
+          subst h
+          refine ⟨?_, ?_, ?_, fun x hx1 hx2 => hfr x hx1 hx2⟩
+          · rw [lookup_rekey_dst _ a b (erase_ne fs b), lookup_erase fs b a (Ne.symm hab)]
+          · exact lookup_rekey_src _ a b hba
+          · rw [hla]; simp
+    · rename_i e he
+      injection h with h _
+      exact absurd h he
+
+/-- `os.Rename(a, b)` that failed: the namespace is unchanged; "not found" means the old name is
+    not bound, or the new name's folder does not exist. -/
+theorem rename_err_spec (fs fs' : FS) (a b : Path) (e : Err) (h : FS.rename fs a b = (e, fs')) (he : e ≠ .ok) :
+    fs' = fs ∧ (e = .notExist → lookup fs a = none ∨ parentErr fs b ≠ .ok) := by
+  unfold FS.rename at h
+  split at h
+  · rename_i hla; injection h with _ h2; exact ⟨h2.symm, fun _ => Or.inl hla⟩
+  · injection h with h1 h2; exact ⟨h2.symm, fun e' => by rw [← h1] at e'; cases e'⟩
+  · rename_i hla _; injection h with _ h2; exact ⟨h2.symm, fun _ => Or.inl hla⟩
+  · split at h
+    · injection h with h1 _; exact absurd h1.symm he
+    · split at h
+      · split at h
+        · injection h with h1 h2; exact ⟨h2.symm, fun e' => by rw [← h1] at e'; cases e'⟩
+        · split at h
+          · injection h with h1 h2; exact ⟨h2.symm, fun e' => by rw [← h1] at e'; cases e'⟩
+          · injection h with h1 _; exact absurd h1.symm he
+      · rename_i e0 he0
+        injection h with _ h2
+        exact ⟨h2.symm, fun _ => Or.inr he0⟩
+
+theorem parentErr_concat (fs : FS) (d : Path) (x : Comp) :
+    parentErr fs (d ++ [x]) = .ok ↔ lookup fs d = some .dir := by
+  unfold parentErr
+  have : (d ++ [x]).dropLast = d := by simp
+  cases hd : d ++ [x] with
+  | nil => simp at hd
+  | cons y ys =>
+    rw [← hd, this]
+    cases hl : lookup fs d with
+    | none => simp [missingErr]; split <;> simp
+    | some n => cases n <;> simp
+
+theorem rename_parent_ok (fs fs' : FS) (a b : Path) (h : FS.rename fs a b = (.ok, fs')) (hab : a ≠ b) :
+    parentErr fs b = .ok := by
+  unfold FS.rename at h
+  split at h
+  · injection h with h _; unfold missingErr at h; split at h <;> cases h
+  · injection h with h _; cases h
+  · injection h with h _; unfold missingErr at h; split at h <;> cases h
+  · rw [if_neg hab] at h
+    split at h
+    · assumption
+    · rename_i e he
+      injection h with h _ <;> exact absurd h he
+
+/-- One tolerant step of `fileWrapper.Move`: the rename succeeded or reported "not found" while the
+    destination folder exists and the destination name is free. -/
+theorem rename_tol_spec (fs : FS) (a b : Path) (hab : a ≠ b) (hba : ¬ b <+: a)
+    (hfree : lookup fs b = none) (hpar : parentErr fs b = .ok)
+    (h : (FS.rename fs a b).1 = .ok ∨ (FS.rename fs a b).1 = .notExist) :
+    lookup (FS.rename fs a b).2 b = lookup fs a ∧ lookup (FS.rename fs a b).2 a = none ∧
+    (∀ x, ¬ a <+: x → ¬ b <+: x → lookup (FS.rename fs a b).2 x = lookup fs x) := by
+  cases hr : FS.rename fs a b with
+  | mk e fs1 =>
+    rw [hr] at h
+    rcases h with h | h
+    · simp only at h; subst h
+      obtain ⟨h1, h2, _, h4⟩ := rename_ok_spec fs fs1 a b hr hab hba
+      exact ⟨h1, h2, h4⟩
+    · simp only at h; subst h
+      obtain ⟨h1, h2⟩ := rename_err_spec fs fs1 a b .notExist hr (by decide)
+      subst h1
+      rcases h2 rfl with h3 | h3
+      · exact ⟨by rw [hfree, h3], h3, fun _ _ _ => rfl⟩
+      · exact absurd hpar h3
+
+theorem prefix_concat_cases {a d : Path} {x : Comp} (h : a <+: d ++ [x]) : a = d ++ [x] ∨ a <+: d := by
+  obtain ⟨r, hr⟩ := h
+  cases hrr : r.reverse with
+  | nil =>
+    have : r = [] := by simpa using hrr
+    subst this
+    left; simpa using hr
+  | cons z zs =>
+    have : r = zs.reverse ++ [z] := by
+      have := congrArg List.reverse hrr; simpa using this
+    subst this
+    right
+    rw [← List.append_assoc] at hr
+    have := List.append_inj' hr rfl
+    exact ⟨zs.reverse, this.1⟩
+
+/-- Separation of a move of `t` to folder `d` under the name `nm`: no source path (data fork, side
+    files) is a destination path, no source lies on the way to the destination folder, no
+    destination lies on the way to the source folder — true for every move or rename of a regular
+    file to a different place in a real tree. -/
+structure MoveSep (t d : Path) (nm : Comp) : Prop where
+  src_ne_dst : ∀ a ∈ wrapperPaths t, ∀ b ∈ wrapperPaths (d ++ [nm]), a ≠ b
+  src_not_above : ∀ a ∈ wrapperPaths t, ¬ a <+: d
+  dst_not_above : ∀ b ∈ wrapperPaths (d ++ [nm]), ¬ b <+: t.dropLast
+
+theorem wrapper_concat (d : Path) (nm : Comp) :
+    wrapper (d ++ [nm]) = ⟨d ++ [nm], d ++ [nm ++ incSfx], d ++ [rsrcPfx ++ nm], d ++ [infoPfx ++ nm], nm⟩ := by
+  simp [wrapper, baseName]
+
+theorem not_concat_prefix (d : Path) (x : Comp) : ¬ d ++ [x] <+: d := by
+  intro h
+  have := h.length_le
+  simp at this
+  omega
+
+/-- Rename / move carry the whole file: after `fileWrapper.Move` ran to the end, the data fork and
+    every side file (`.incomplete`, `.rsrc_`, `.info_`) are bound at the destination names exactly as
+    they were at the source names (absent stays absent), nothing is left at the source names, and no
+    other path changes. -/
+theorem move_carries (fs fs' : FS) (t d : Path) (nm : Comp) (ht : t ≠ [])
+    (hrun : runSeq fs (moveScript t d [nm] nm) = (.ok, fs')) (hsep : MoveSep t d nm)
+    (hfree : ∀ b ∈ (wrapperPaths (d ++ [nm])).tail, lookup fs b = none) :
+    let w := wrapper t
+    let v := wrapper (d ++ [nm])
+    lookup fs' v.data = lookup fs w.data ∧ lookup fs' v.inc = lookup fs w.inc ∧
+    lookup fs' v.rsrc = lookup fs w.rsrc ∧ lookup fs' v.info = lookup fs w.info ∧
+    (∀ a ∈ wrapperPaths t, lookup fs' a = none) ∧ lookup fs t ≠ none ∧
+    (∀ x, (∀ a ∈ wrapperPaths t, ¬ a <+: x) → (∀ b ∈ wrapperPaths (d ++ [nm]), ¬ b <+: x) → lookup fs' x = lookup fs x) := by
+  obtain ⟨_, hla2, hla3, hla4, a21, a31, a41, a23, a24, a34⟩ := wrapper_distinct t ht
+  obtain ⟨_, hlb2, hlb3, hlb4, b21, b31, b41, b23, b24, b34⟩ := wrapper_distinct (d ++ [nm]) (by simp)
+  have hdata : (wrapper t).data = t := rfl
+  have hvdata : (wrapper (d ++ [nm])).data = d ++ [nm] := rfl
+  rw [hdata] at a21 a31 a41
+  rw [hvdata] at b21 b31 b41
+  have hvinc : (wrapper (d ++ [nm])).inc = d ++ [nm ++ incSfx] := by rw [wrapper_concat]
+  have hvrsrc : (wrapper (d ++ [nm])).rsrc = d ++ [rsrcPfx ++ nm] := by rw [wrapper_concat]
+  have hvinfo : (wrapper (d ++ [nm])).info = d ++ [infoPfx ++ nm] := by rw [wrapper_concat]
+  have hsrcs : wrapperPaths t = [t, (wrapper t).inc, (wrapper t).rsrc, (wrapper t).info] := rfl
+  have hdsts : wrapperPaths (d ++ [nm]) = [d ++ [nm], (wrapper (d ++ [nm])).inc, (wrapper (d ++ [nm])).rsrc, (wrapper (d ++ [nm])).info] := rfl
+  have hscript : moveScript t d [nm] nm =
+      [(.rename t (d ++ [nm]), false), (.rename (wrapper t).inc (wrapper (d ++ [nm])).inc, true),
+       (.rename (wrapper t).rsrc (wrapper (d ++ [nm])).rsrc, true), (.rename (wrapper t).info (wrapper (d ++ [nm])).info, true)] := by
+    rw [hvinc, hvrsrc, hvinfo]; rfl
+  rw [hscript] at hrun
+  obtain ⟨h_ne, h_sa, h_da⟩ := hsep
+  dsimp only
+  rw [hdata, hvdata]
+  -- shapes
+  have srcShape : ∀ a ∈ wrapperPaths t, ∃ y, a = t.dropLast ++ [y] := by
+    intro a hmem
+    rw [hsrcs] at hmem
+    simp only [List.mem_cons, List.mem_nil_iff, or_false] at hmem
+    rcases hmem with rfl | rfl | rfl | rfl
+    · exact ⟨a.getLast ht, (List.dropLast_concat_getLast ht).symm⟩
+    · exact ⟨_, rfl⟩
+    · exact ⟨_, rfl⟩
+    · exact ⟨_, rfl⟩
+  have dstShape : ∀ b ∈ wrapperPaths (d ++ [nm]), ∃ y, b = d ++ [y] := by
+    intro b hmem
+    rw [hdsts, hvinc, hvrsrc, hvinfo] at hmem
+    simp only [List.mem_cons, List.mem_nil_iff, or_false] at hmem
+    rcases hmem with rfl | rfl | rfl | rfl <;> exact ⟨_, rfl⟩
+  -- names for the eight paths
+  rw [hsrcs] at h_ne h_sa srcShape ⊢
+  rw [hdsts] at h_ne h_da dstShape hfree ⊢
+  clear hsrcs hdsts hscript
+  generalize (wrapper t).inc = a2 at *
+  generalize (wrapper t).rsrc = a3 at *
+  generalize (wrapper t).info = a4 at *
+  generalize (wrapper (d ++ [nm])).inc = b2 at *
+  generalize (wrapper (d ++ [nm])).rsrc = b3 at *
+  generalize (wrapper (d ++ [nm])).info = b4 at *
+  generalize d ++ [nm] = b1 at *
+  have sd : ∀ a ∈ [t, a2, a3, a4], ∀ b ∈ [b1, b2, b3, b4], a ≠ b ∧ ¬ a <+: b ∧ ¬ b <+: a := by
+    intro a ha b hb
+    obtain ⟨y, hy⟩ := srcShape a ha
+    obtain ⟨z, hz⟩ := dstShape b hb
+    have hab := h_ne a ha b hb
+    refine ⟨hab, ?_, ?_⟩
+    · intro h; rw [hz] at h
+      rcases prefix_concat_cases h with h | h
+      · exact hab (by rw [h, hz])
+      · exact h_sa a ha h
+    · intro h; rw [hy] at h
+      rcases prefix_concat_cases h with h | h
+      · exact hab (by rw [h, hy])
+      · exact h_da b hb h
+  have ss : ∀ {a a' : Path}, a.length = a'.length → a ≠ a' → ¬ a <+: a' :=
+    fun hl hne h => hne (List.IsPrefix.eq_of_length h hl)
+  have bd : ∀ b ∈ [b1, b2, b3, b4], ¬ b <+: d := by
+    intro b hb h
+    obtain ⟨z, hz⟩ := dstShape b hb
+    rw [hz] at h
+    exact not_concat_prefix d z h
+  have ad : ∀ a ∈ [t, a2, a3, a4], ¬ a <+: d := h_sa
+  have par : ∀ (g : FS) (b : Path), b ∈ [b1, b2, b3, b4] → lookup g d = some .dir → parentErr g b = .ok := by
+    intro g b hb hg
+    obtain ⟨z, hz⟩ := dstShape b hb
+    rw [hz]; exact (parentErr_concat g d z).mpr hg
+  -- unfold the run
+  obtain ⟨c1, h1⟩ := runSeq_cons_ok _ _ _ _ _ hrun
+  obtain ⟨c2, h2⟩ := runSeq_cons_ok _ _ _ _ _ h1
+  obtain ⟨c3, h3⟩ := runSeq_cons_ok _ _ _ _ _ h2
+  obtain ⟨c4, h4⟩ := runSeq_cons_ok _ _ _ _ _ h3
+  have h5 := runSeq_nil_ok _ _ h4
+  simp only [FSOp.apply] at c1 c2 c3 c4 h5
+  have c1' : (FS.rename fs t b1).1 = .ok := by
+    rcases c1 with h | h
+    · exact h
+    · exact absurd h.1 (by decide)
+  simp only [List.tail_cons, List.mem_cons, List.mem_nil_iff, or_false, forall_eq_or_imp, forall_eq] at hfree
+  obtain ⟨fr2, fr3, fr4⟩ := hfree
+  -- step 1
+  generalize hfs1 : (FS.rename fs t b1).2 = fs1 at *
+  have e1 : FS.rename fs t b1 = (.ok, fs1) := Prod.ext c1' hfs1
+  obtain ⟨s1b, s1a, s1e, F1⟩ := rename_ok_spec fs fs1 t b1 e1 (sd t (by simp) b1 (by simp)).1 (sd t (by simp) b1 (by simp)).2.2
+  have hpar := rename_parent_ok fs fs1 t b1 e1 (sd t (by simp) b1 (by simp)).1
+  have hddir : lookup fs d = some .dir := by
+    obtain ⟨z, hz⟩ := dstShape b1 (by simp)
+    rw [hz] at hpar; exact (parentErr_concat fs d z).mp hpar
+  have hd1 : lookup fs1 d = some .dir := by rw [F1 d (ad t (by simp)) (bd b1 (by simp))]; exact hddir
+  -- step 2
+  have f2 : lookup fs1 b2 = none := by
+    rw [F1 b2 (sd t (by simp) b2 (by simp)).2.1 (ss hlb2.symm (Ne.symm b21))]; exact fr2
+  obtain ⟨s2b, s2a, F2⟩ := rename_tol_spec fs1 a2 b2 (sd a2 (by simp) b2 (by simp)).1 (sd a2 (by simp) b2 (by simp)).2.2 f2
+    (par fs1 b2 (by simp) hd1) (c2.imp id (·.2))
+  generalize hfs2 : (FS.rename fs1 a2 b2).2 = fs2 at *
+  have hd2 : lookup fs2 d = some .dir := by rw [F2 d (ad a2 (by simp)) (bd b2 (by simp))]; exact hd1
+  -- step 3
+  have f3 : lookup fs2 b3 = none := by
+    rw [F2 b3 (sd a2 (by simp) b3 (by simp)).2.1 (ss (hlb2.trans hlb3.symm) b23),
+      F1 b3 (sd t (by simp) b3 (by simp)).2.1 (ss hlb3.symm (Ne.symm b31))]
+    exact fr3
+  obtain ⟨s3b, s3a, F3⟩ := rename_tol_spec fs2 a3 b3 (sd a3 (by simp) b3 (by simp)).1 (sd a3 (by simp) b3 (by simp)).2.2 f3
+    (par fs2 b3 (by simp) hd2) (c3.imp id (·.2))
+  generalize hfs3 : (FS.rename fs2 a3 b3).2 = fs3 at *
+  have hd3 : lookup fs3 d = some .dir := by rw [F3 d (ad a3 (by simp)) (bd b3 (by simp))]; exact hd2
+  -- step 4
+  have f4 : lookup fs3 b4 = none := by
+    rw [F3 b4 (sd a3 (by simp) b4 (by simp)).2.1 (ss (hlb3.trans hlb4.symm) b34),
+      F2 b4 (sd a2 (by simp) b4 (by simp)).2.1 (ss (hlb2.trans hlb4.symm) b24),
+      F1 b4 (sd t (by simp) b4 (by simp)).2.1 (ss hlb4.symm (Ne.symm b41))]
+    exact fr4
+  obtain ⟨s4b, s4a, F4⟩ := rename_tol_spec fs3 a4 b4 (sd a4 (by simp) b4 (by simp)).1 (sd a4 (by simp) b4 (by simp)).2.2 f4
+    (par fs3 b4 (by simp) hd3) (c4.imp id (·.2))
+  generalize hfs4 : (FS.rename fs3 a4 b4).2 = fs4 at *
+  subst h5
+  refine ⟨?_, ?_, ?_, ?_, ?_, s1e, ?_⟩
+  · -- data
+    rw [F4 b1 (sd a4 (by simp) b1 (by simp)).2.1 (ss hlb4 b41),
+      F3 b1 (sd a3 (by simp) b1 (by simp)).2.1 (ss hlb3 b31),
+      F2 b1 (sd a2 (by simp) b1 (by simp)).2.1 (ss hlb2 b21)]
+    exact s1b
+  · -- incomplete
+    rw [F4 b2 (sd a4 (by simp) b2 (by simp)).2.1 (ss (hlb4.trans hlb2.symm) (Ne.symm b24)),
+      F3 b2 (sd a3 (by simp) b2 (by simp)).2.1 (ss (hlb3.trans hlb2.symm) (Ne.symm b23)), s2b,
+      F1 a2 (ss hla2.symm (Ne.symm a21)) (sd a2 (by simp) b1 (by simp)).2.2]
+  · -- rsrc
+    rw [F4 b3 (sd a4 (by simp) b3 (by simp)).2.1 (ss (hlb4.trans hlb3.symm) (Ne.symm b34)), s3b,
+      F2 a3 (ss (hla2.trans hla3.symm) a23) (sd a3 (by simp) b2 (by simp)).2.2,
+      F1 a3 (ss hla3.symm (Ne.symm a31)) (sd a3 (by simp) b1 (by simp)).2.2]
+  · -- info
+    rw [s4b, F3 a4 (ss (hla3.trans hla4.symm) a34) (sd a4 (by simp) b3 (by simp)).2.2,
+      F2 a4 (ss (hla2.trans hla4.symm) a24) (sd a4 (by simp) b2 (by simp)).2.2,
+      F1 a4 (ss hla4.symm (Ne.symm a41)) (sd a4 (by simp) b1 (by simp)).2.2]
+  · -- nothing left at the sources
+    intro a ha
+    simp only [List.mem_cons, List.mem_nil_iff, or_false] at ha
+    rcases ha with rfl | rfl | rfl | rfl
+    · rw [F4 a (ss hla4 a41) (sd a (by simp) b4 (by simp)).2.2,
+        F3 a (ss hla3 a31) (sd a (by simp) b3 (by simp)).2.2,
+        F2 a (ss hla2 a21) (sd a (by simp) b2 (by simp)).2.2]
+      exact s1a
+    · rw [F4 a (ss (hla4.trans hla2.symm) (Ne.symm a24)) (sd a (by simp) b4 (by simp)).2.2,
+        F3 a (ss (hla3.trans hla2.symm) (Ne.symm a23)) (sd a (by simp) b3 (by simp)).2.2]
+      exact s2a
+    · rw [F4 a (ss (hla4.trans hla3.symm) (Ne.symm a34)) (sd a (by simp) b4 (by simp)).2.2]
+      exact s3a
+    · exact s4a
+  · -- frame
+    intro x hs hdd
+    rw [F4 x (hs a4 (by simp)) (hdd b4 (by simp)), F3 x (hs a3 (by simp)) (hdd b3 (by simp)),
+      F2 x (hs a2 (by simp)) (hdd b2 (by simp)), F1 x (hs t (by simp)) (hdd b1 (by simp))]
+
+/-- An acknowledged move ran `fileWrapper.Move` to the end on a target strictly below the root. -/
+theorem move_ok_runs (root : Path) (fs : FS) (pf : Option Bytes) (name : Bytes) (newPf : Option Bytes) (t d : Path) (fs' : FS)
+    (ht : target root pf name = .ok t) (hd : target root newPf [] = .ok d)
+    (hok : move root fs pf name newPf = (fs', .ok)) :
+    t ≠ root ∧ runSeq fs (moveScript t d [baseName t] (baseName t)) = (.ok, fs') := by
+  unfold move withTarget at hok
+  simp only [ht, hd] at hok
+  by_cases hroot : isRoot root t = true
+  · rw [if_pos hroot] at hok; cases hok
+  · rw [if_neg hroot] at hok
+    refine ⟨isRoot_false (by simpa using hroot), ?_⟩
+    split at hok
+    · cases hok
+    · cases hok
+    · split at hok
+      · cases hok
+      · split at hok
+        · rename_i h1
+          injection hok with h2 _
+          exact Prod.ext h1 h2
+        · cases hok
+
+/-- An acknowledged rename of a regular file ran `fileWrapper.Move` to the end, inside the file's
+    own folder, under the single component the new name cleans to. -/
+theorem rename_ok_runs (root : Path) (fs : FS) (pf : Option Bytes) (name nn : Bytes) (t d : Path) (b : Bytes) (fs' : FS)
+    (ht : target root pf name = .ok t) (hd : target root pf [] = .ok d)
+    (hfile : statOk fs t = some (.file b))
+    (hok : setInfo root fs pf name none (some nn) = (fs', .ok)) :
+    t ≠ root ∧ runSeq fs (moveScript t d (newNameComps nn) (baseName (newNameComps nn))) = (.ok, fs') := by
+  unfold setInfo withTarget at hok
+  simp only [ht] at hok
+  by_cases hroot : isRoot root t = true
+  · rw [if_pos hroot] at hok; cases hok
+  · rw [if_neg hroot] at hok
+    refine ⟨isRoot_false (by simpa using hroot), ?_⟩
+    simp only [hfile] at hok
+    split at hok
+    · cases hok
+    · cases hok
+    · simp only [commentStep, renameStep, Node.isDir, withTarget, hd] at hok
+      simp only [ne_eq, not_true_eq_false, if_false] at hok
+      split at hok
+      · rename_i h1; cases h1
+      · cases hr : (runSeq fs (moveScript t d (newNameComps nn) (baseName (newNameComps nn)))).1 with
+        | ok =>
+          simp only [hr] at hok
+          injection hok with h2 _
+          exact Prod.ext hr h2
+        | notExist => simp [hr] at hok
+        | other => simp [hr] at hok
 
 end Mobius.FileOps
